@@ -285,8 +285,8 @@ pub fn run(ctx: &Ctx) -> i32 {
     let sm = small_menu();
     let mut acc = Acc::new();
     let (full_len, small_len) = match ctx.tier {
-        Tier::Quick => (3, 4),
-        Tier::Thorough => (4, 5),
+        Tier::Quick => (4, 4),
+        Tier::Thorough => (5, 6),
     };
     for n in 1..=full_len {
         let total = (m.len() as u64).pow(n as u32);
